@@ -42,7 +42,7 @@ def strategy(tier, phase):
     from vlib import protogen
 
     op = st.tuples(st.integers(0, N_OPS - 1), st.integers(0, 60), st.integers(0, 60), st.integers(0, 60)).map(list)
-    return st.fixed_dictionaries({"gen": st.sampled_from([2, 3, 3]), "tape": protogen.tape_strategy(300), "irv": st.sampled_from([0, 10, 11, 13, 8, 9]),
+    return st.fixed_dictionaries({"gen": st.sampled_from([2, 3, 4, 4]), "tape": protogen.tape_strategy(300), "irv": st.sampled_from([0, 10, 11, 13, 8, 9]),
                                   "ops": st.lists(op, min_size=0, max_size=10)})
 
 
